@@ -274,6 +274,10 @@ func (l *log) Get(offset int64) (message.Message, error) {
 	if err == index.ErrOffsetAfterEnd && segmentIndex < len(l.readers)-1 {
 		return msg, index.ErrOffsetNotFound
 	}
+	if err == index.ErrOffsetIndexEmpty && offset == message.OffsetNewest && segmentIndex > 0 {
+		// the head segment is empty (e.g. the newest messages got deleted), the newest is in the previous one
+		return l.readers[segmentIndex-1].Get(offset)
+	}
 	return msg, err
 }
 
